@@ -459,7 +459,7 @@ class Gen:
 
     def gen_text(self, scope):
         rng = self.rng
-        s = "".join(rng.choice("abcxyz 0123456789@!?") for _ in range(rng.randrange(1, 9)))
+        s = "".join(rng.choice("abcxyz 0123456789@!?") for _ in range(0 if rng.random() < 0.08 else rng.randrange(1, 9)))
         self.nbytes += len(s)
         return Stmt("text", scope, enc=rng.choice([None, None, "ascii", "petscii", "petscreen"]), text=s)
 
